@@ -161,10 +161,10 @@ fn rehashed(s: &Scen) -> Scen {
     s
 }
 
-const TACONITE: &str = "/repo/python/altrios/resources/networks/Taconite.yaml";
+
 static TACONITE_NET: std::sync::OnceLock<Option<Vec<Link>>> = std::sync::OnceLock::new();
 fn taconite() -> Option<&'static Vec<Link>> {
-    TACONITE_NET.get_or_init(|| guard(|| Network::from_file(TACONITE).ok().map(|n| n.0)).flatten()).as_ref()
+    TACONITE_NET.get_or_init(|| { let p = format!("{}/python/altrios/resources/networks/Taconite.yaml", std::env::var("VERIF_REPO").unwrap_or_else(|_| "/repo".into())); guard(|| Network::from_file(p).ok().map(|n| n.0)).flatten() }).as_ref()
 }
 
 fn meet(net: &[Link], trains: &[SpeedLimitTrainSim]) -> Out {
@@ -316,15 +316,17 @@ fn rail_vehicle(r: &mut Rng, name: &str) -> RailVehicle {
         length: m(*r.pick(&[15.24, 18.288, 20.4216, 27.432, 16.1544, 10.7, 19.5072])),
         axle_count: 4,
         brake_count: 1,
-        mass_static_base: uc::KG * (r.range(20, 40) as f64 * 1000.0 + *r.pick(&[0.0, 0.1, 453.59237])),
-        mass_freight: uc::KG * (r.range(0, 80) as f64 * 1000.0),
+        mass_static_base: uc::KG * (r.range(20, 40) as f64 * 1000.0 + *r.pick(&[0.3, 0.1, 453.59237])),
+        mass_freight: uc::KG * (r.range(0, 80) as f64 * 1000.7),
         speed_max: mps(*r.pick(&[25.0, 30.0, 35.0])),
         braking_ratio: uc::R * *r.pick(&[0.05, 0.1, 0.15]),
-        mass_rot_per_axle: uc::KG * 1500.0,
-        bearing_res_per_axle: uc::N * *r.pick(&[150.0, 178.0, 200.0]),
+        mass_rot_per_axle: uc::KG * *r.pick(&[1500.3, 1499.9, 1650.1]),
+        bearing_res_per_axle: uc::N * *r.pick(&[150.3, 178.1, 200.7]),
         rolling_ratio: uc::R * *r.pick(&[0.0005, 0.00075, 0.001]),
         davis_b: uc::SPM * *r.pick(&[0.0, 0.00001, 0.00003]),
-        cd_area: uc::M2 * *r.pick(&[2.0, 4.0, 6.5]),
+        // every per-type quantity that a builder may total over the car types is a non-dyadic decimal, so that ANY
+        // fold over the types in hash order (lengths, masses, drag areas, axle or brake totals …) changes low bits
+        cd_area: uc::M2 * *r.pick(&[2.13, 4.7, 6.55, 3.3, 5.1]),
         curve_coeff_0: uc::R * 0.0,
         curve_coeff_1: uc::R * 0.0,
         curve_coeff_2: uc::R * 0.0,
